@@ -5,7 +5,7 @@
 From Coq Require Extraction.
 From Coq Require Import ExtrOcamlBasic ExtrOcamlNatBigInt ExtrOcamlZBigInt.
 From Coq Require Import ZArith.
-From Sfs Require Import Index ArrayM Scalar Spectrum Project Create Stat Npy Text.
+From Sfs Require Import Index ArrayM Scalar Spectrum Project Create Stat Npy Text Stream.
 
 Extraction Blacklist List String Int Big_int_Z.
 
@@ -41,4 +41,5 @@ Extraction "model.ml"
   Create.init_sstate Create.create_run Create.rec_counts Create.rec_complete
   Stat.calculate Stat.view_run
   Npy.write_npy Npy.read_npy Npy.parse_dict Npy.decode_value Npy.dec
-  Text.print_fixed Text.parse_f64 Text.write_text Text.read_text Text.detect_format Text.read_spectrum.
+  Text.print_fixed Text.parse_f64 Text.write_text Text.read_text Text.detect_format Text.read_spectrum
+  Stream.mk_reader Stream.read_npy_s Stream.read_to_end_s Stream.mk_writer Stream.write_pieces Stream.npy_pieces Stream.detect_stream.
